@@ -59,7 +59,7 @@ func isSimpleOperand(info *types.Info, e ast.Expr) bool {
 
 func nakedIIFE(e ast.Expr) *ast.CallExpr {
 	ce, ok := ast.Unparen(e).(*ast.CallExpr)
-	if !ok || len(ce.Args) != 0 {
+	if !ok || ce.Ellipsis.IsValid() {
 		return nil
 	}
 	if _, ok := ast.Unparen(ce.Fun).(*ast.FuncLit); !ok {
